@@ -839,6 +839,81 @@ package common
 //@   ensures (err != nil) == st_gvr_err(s)
 //@   ensures err == nil ==> r == st_gvr(s)
 
+// ---------------------------------------------------------------- justification bits (C02)
+//@ define jbit(b int, t int) bool = (b / pow2(t)) % 2 == 1
+//@ func (jb *JustificationBits) NextEpoch()
+//@   property C02
+//@   opt noalloc
+//@   requires jb != nil
+//@   assigns *jb
+//@   ensures (*jb)[0] == (old((*jb)[0]) * 2) % 16
+//@ func (jb *JustificationBits) IsJustified(epochsAgo) r
+//@   property C02
+//@   opt noalloc
+//@   requires jb != nil
+//@   ensures all: r == (forall k :: {epochsAgo[k]} 0 <= k && k < len(epochsAgo) ==> jbit((*jb)[0], epochsAgo[k]))
+//@   ensures two: len(epochsAgo) == 2 ==> r == (jbit((*jb)[0], epochsAgo[0]) && jbit((*jb)[0], epochsAgo[1]))
+//@   ensures three: len(epochsAgo) == 3 ==> r == (jbit((*jb)[0], epochsAgo[0]) && jbit((*jb)[0], epochsAgo[1]) && jbit((*jb)[0], epochsAgo[2]))
+//@   loop 1
+//@     invariant forall k :: {epochsAgo[k]} 0 <= k && k <= rangeindex ==> jbit((*jb)[0], epochsAgo[k])
+
+
+// justification / finalization state (assumed interface models; setters are recorded in ghosts: how often and with what;
+// they write the state's backing tree, which is not a modelled Go object, so no modelled heap location changes)
+//@ sort JBitsT = JustificationBits
+//@ sort RootsI = BatchRoots
+//@ ufun st_jbits_err(StateI) bool
+//@ ufun st_jbits(StateI) JBitsT
+//@ ufun st_broots_err(StateI) bool
+//@ ufun st_broots(StateI) RootsI
+//@ ufun roots_at_err(RootsI, int) bool
+//@ ufun roots_at(RootsI, int) RootT
+//@ ghost n_set_prevjust int
+//@ ghost set_prevjust CkptT
+//@ ghost n_set_curjust int
+//@ ghost set_curjust CkptT
+//@ ghost n_set_fin int
+//@ ghost set_fin CkptT
+//@ ghost n_set_jbits int
+//@ ghost set_jbits JBitsT
+//@ func (s BeaconState) JustificationBits() (r, err)
+//@   trusted
+//@   opt noalloc
+//@   ensures (err != nil) == st_jbits_err(s)
+//@   ensures err == nil ==> r == st_jbits(s)
+//@ func (s BeaconState) BlockRoots() (r, err)
+//@   trusted
+//@   opt noalloc
+//@   ensures (err != nil) == st_broots_err(s)
+//@   ensures err == nil ==> r == st_broots(s) && r != nil
+//@ func (b BatchRoots) GetRoot(slot) (r, err)
+//@   trusted
+//@   opt noalloc
+//@   ensures (err != nil) == roots_at_err(b, slot)
+//@   ensures err == nil ==> r == roots_at(b, slot)
+//@ func (s BeaconState) SetPreviousJustifiedCheckpoint(c) err
+//@   trusted
+//@   assigns ghost(n_set_prevjust), ghost(set_prevjust)
+//@   ensures n_set_prevjust == old(n_set_prevjust) + 1 && set_prevjust == c
+//@ func (s BeaconState) SetCurrentJustifiedCheckpoint(c) err
+//@   trusted
+//@   assigns ghost(n_set_curjust), ghost(set_curjust)
+//@   ensures n_set_curjust == old(n_set_curjust) + 1 && set_curjust == c
+//@ func (s BeaconState) SetFinalizedCheckpoint(c) err
+//@   trusted
+//@   assigns ghost(n_set_fin), ghost(set_fin)
+//@   ensures n_set_fin == old(n_set_fin) + 1 && set_fin == c
+//@ func (s BeaconState) SetJustificationBits(bits) err
+//@   trusted
+//@   assigns ghost(n_set_jbits), ghost(set_jbits)
+//@   ensures n_set_jbits == old(n_set_jbits) + 1 && set_jbits == bits
+
+// get_block_root(state, epoch) = block_roots[start_slot(epoch)] (the modulo indexing lives behind BatchRoots)
+//@ func GetBlockRoot(spec, state, epoch) (r, err)
+//@   property C02
+//@   requires spec != nil && spec.SLOTS_PER_EPOCH != 0 && state != nil
+//@   ensures err == nil ==> epoch * spec.SLOTS_PER_EPOCH < 18446744073709551616 && !st_broots_err(state) && r == roots_at(st_broots(state), epoch * spec.SLOTS_PER_EPOCH)
+
 // BEGIN C18 generated (tools/gen_c18.py in /verif)
 // cancelled: a context cancelled before the call makes it fail; surfaced: a cancellation observed by a poll
 // during the call makes it fail; polled: success after a poll means the context was not cancelled at entry.
